@@ -99,6 +99,10 @@ type run struct {
 	frozen    map[*value]string   // cells no operation may write to -> obligation label
 	frozenMap map[*smap]string
 	frozenSeen map[string]bool
+	poolStrict bool             // vPoolStrict: an object is not the putter's any more after sync.Pool.Put
+	pooled     map[*value]bool  // cells of objects currently inside a pool
+	pooledMap  map[*smap]bool
+	raceLabel  string           // obligation label of the pairwise schedule composition (default: C11's)
 	waitFrom  *frame // caller of the sync primitive being recorded
 	syncIDs   map[*value]int
 	syncLog   []syncEv
@@ -661,6 +665,8 @@ func (e *engine) runPath(sol *Solver, entry *ssa.Function, args []value, prefix 
 		pools:      map[*value][]value{},
 		frozen:     map[*value]string{},
 		frozenMap:  map[*smap]string{},
+		pooled:     map[*value]bool{},
+		pooledMap:  map[*smap]bool{},
 		names:      map[*value]string{},
 		twins:      map[*Term]*Term{},
 		watch:      map[*value]string{},
